@@ -323,6 +323,18 @@ func (env *Env) build(st *Step) error {
 		return errors.WithMessage(e, s)
 	case "WithStack":
 		return errors.WithStack(e)
+	case "WithMessagef":
+		f, args := env.format(st.Parts)
+		return errors.WithMessagef(e, f, args...)
+	case "WithHintf":
+		f, args := env.format(st.Parts)
+		return errors.WithHintf(e, f, args...)
+	case "WithDetailf":
+		f, args := env.format(st.Parts)
+		return errors.WithDetailf(e, f, args...)
+	case "UnimplementedErrorf":
+		f, args := env.format(st.Parts)
+		return errors.UnimplementedErrorf(errors.IssueLink{IssueURL: at(st.A, 0), Detail: at(st.A, 1)}, f, args...)
 	case "WithHint":
 		return errors.WithHint(e, s)
 	case "WithDetail":
